@@ -4,6 +4,7 @@ DP-1..6 dispatch arms of get_evaluator, DP-7 constexpr chunk helpers,
 CL-1 core clones, CL-2 entry-point clones, CL-3 order-0 special case of the kernels,
 CL-4 kernel selection in the entry points.
 """
+import os
 import re
 
 from .. import core
@@ -997,6 +998,90 @@ def cl8(P, C):
     if n == 0:
         raise core.AnalysisBroken("CL-8: no ndsplineeval_deriv entry point found")
     return A, B
+
+
+def path_facts(f, node):
+    """relational facts that hold on every path to `node` inside its function, read off the structure: conditions of the enclosing ifs
+    (then-branch: the conjuncts; else-branch: the negated disjuncts) and of earlier sibling ifs whose then-branch always leaves
+    (negated).  Facts are (lhs text, op, rhs text) with orderings complemented on negation (valid for ordered operands: no NaN)."""
+    COMP = {"<": ">=", "<=": ">", ">": "<=", ">=": "<", "==": "!=", "!=": "=="}
+    facts = []
+
+    def leaf_fact(lf, positive):
+        lf = f.strip(lf)
+        n = f.nodes[lf]
+        if n["k"] == "UnaryOperator" and n.get("op") == "!":
+            return leaf_fact(n["ch"][0], not positive)
+        if n["k"] != "BinaryOperator" or n.get("op") not in COMP:
+            return [("?" + f.render(lf), "is", str(positive))]
+        a, b = (f.render(x).replace(" ", "") for x in n["ch"])
+        op = n["op"] if positive else COMP[n["op"]]
+        return [(a, op, b)]
+
+    def cond_facts(c, positive):
+        conn, leaves = core.cond_leaves(f, c)
+        if positive and conn in ("&&", "leaf"):
+            return [x for lf in leaves for x in leaf_fact(lf, True)]
+        if not positive and conn in ("||", "leaf"):
+            return [x for lf in leaves for x in leaf_fact(lf, False)]
+        return []                                  # a disjunction that holds / a conjunction that fails: no single fact
+    def always_leaves(st):
+        st_ = st
+        if f.k(st_) == "CompoundStmt":
+            kids = f.ch(st_)
+            return bool(kids) and always_leaves(kids[-1])
+        return f.k(st_) in ("ReturnStmt", "ContinueStmt", "BreakStmt", "CXXThrowExpr") or \
+            (f.k(st_) == "IfStmt" and f.nodes[st_].get("else", -1) >= 0 and always_leaves(f.nodes[st_]["then"]) and always_leaves(f.nodes[st_]["else"]))
+    prev = node
+    for a in f.ancestors(node):
+        k = f.k(a)
+        if k == "IfStmt":
+            if f.nodes[a].get("then") == prev:
+                facts += cond_facts(f.nodes[a]["cond"], True)
+            elif f.nodes[a].get("else") == prev:
+                facts += cond_facts(f.nodes[a]["cond"], False)
+        elif k == "CompoundStmt":
+            for sib in f.ch(a):
+                if sib == prev:
+                    break
+                if f.k(sib) == "IfStmt" and f.nodes[sib].get("else", -1) < 0 and always_leaves(f.nodes[sib]["then"]):
+                    facts += cond_facts(f.nodes[sib]["cond"], False)
+        prev = a
+    return facts
+
+
+def cl9(P, C):
+    """CL-9: the degree-0 B-spline is the indicator of the half-open interval [knots[i], knots[i+1])."""
+    C.rule("CL-9", "the recursive reference bspline() — and the fitter's private copy — bottom out, for degree 0, in the indicator of the half-open "
+           "interval knots[i] <= x < knots[i+1]: every point belongs to exactly one piece (the basis functions sum to one), and a knot belongs "
+           "to the piece on its right, which is the one-sided convention the arbitrary-order derivative inherits from it", floor=2)
+    N = MIR = {"<": ">", "<=": ">=", ">": "<", ">=": "<="}
+    n_ob = 0
+    for f in sorted([g for g in P.fns("bspline") if g.file.endswith(("core/bspline.cpp", "fitter/splineutil.c"))], key=lambda g: g.file):
+        xname, kname_, iname = f.params[1]["name"], f.params[0]["name"], f.params[2]["name"]
+        if f.file.endswith("splineutil.c"):
+            kname_, xname, iname = f.params[0]["name"], f.params[1]["name"], f.params[2]["name"]
+        ones = [r for r in f.walk() if f.k(r) == "ReturnStmt" and f.ch(r) and f.nodes[f.strip(f.ch(r)[0])].get("v", f.nodes[f.strip(f.ch(r)[0])].get("cv")) in (1, 1.0)]
+        ok = False
+        det = "no `return 1` found"
+        if len(ones) == 1:
+            facts = path_facts(f, ones[0])
+            rel = set()
+            for (a, op, b) in facts:
+                if a == xname:
+                    rel.add((op, b))
+                elif b == xname and op in MIR:
+                    rel.add((MIR[op], a))
+            lo = "%s[%s]" % (kname_, iname)
+            hi = "%s[(%s+1)]" % (kname_, iname)
+            want = {(">=", lo), ("<", hi)}
+            got = {r for r in rel if r[1] in (lo, hi)}
+            ok = got == want
+            det = "returns 1 exactly when %s (required: x >= knots[i] and x < knots[i+1])" % " and ".join("x %s %s" % r for r in sorted(got))
+        n_ob += 1
+        C.ob("CL-9", "bspline@%s" % os.path.basename(f.file), "half-open-indicator", ok, f.loc(ones[0]) if ones else f.where(), det)
+    if n_ob == 0:
+        raise core.AnalysisBroken("CL-9: reference bspline() not found")
 
 
 def cl3(P, C):
